@@ -44,6 +44,7 @@ type Contract struct {
 	Safety   map[string]bool
 	Requires []*Clause
 	Ensures  []*Clause
+	EnsuresLocal []*Clause // postconditions that may mention top-level local variables (their value at the return)
 	Assumes  []*Clause
 	Modifies []*Clause
 	HasMod   bool
@@ -93,7 +94,7 @@ type Lemma struct {
 var clauseKeywords = map[string]bool{
 	"func": true, "props": true, "safety": true, "requires": true, "ensures": true,
 	"modifies": true, "loop": true, "trusted": true, "pure": true, "opaque": true, "ghost": true,
-	"global": true, "lemma": true, "assumes": true, "import": true, "note": true, "cases": true, "end": true, "trustframe": true,
+	"global": true, "lemma": true, "assumes": true, "import": true, "note": true, "cases": true, "end": true, "trustframe": true, "ensures-local": true,
 }
 
 var funcKeyRe = regexp.MustCompile(`^(?:\(\s*\*?\s*(\w+)\s*\)\s*\.\s*(\w+)|(\w+)\s*\.\s*(\w+)|(\w+))`)
@@ -240,6 +241,10 @@ func parseSpecFile(path, relDir string) (*PkgSpec, error) {
 				cur.Requires = append(cur.Requires, mk("requires", it.text, it.line, len(cur.Requires)))
 			case "ensures":
 				cur.Ensures = append(cur.Ensures, mk("ensures", it.text, it.line, len(cur.Ensures)))
+			case "ensures-local":
+				c := mk("ensures", it.text, it.line, len(cur.EnsuresLocal))
+				c.Label = fmt.Sprintf("ensureslocal%d", len(cur.EnsuresLocal))
+				cur.EnsuresLocal = append(cur.EnsuresLocal, c)
 			case "assumes":
 				cur.Assumes = append(cur.Assumes, mk("assumes", it.text, it.line, len(cur.Assumes)))
 			case "modifies":
@@ -462,7 +467,7 @@ var builtinRename = map[string]string{
 	"mapLen": "gh_mapLen", "allocated": "gh_allocated", "pureOf": "gh_pureOf",
 	"uf": "gh_uf", "ufb": "gh_ufb", "ufr": "gh_ufr", "seqOf": "gh_seqOf", "wrote": "gh_wrote", "div": "gh_div", "mod": "gh_mod",
 	"sameElems": "gh_sameElems", "abs": "gh_abs", "min": "gh_min", "max": "gh_max",
-	"count": "gh_count", "sum": "gh_sum", "upd": "gh_upd", "kvDomain": "gh_kvDomain", "kvState": "gh_kvState", "kvHas": "gh_kvHas", "kvVal": "gh_kvVal", "kvWrites": "gh_kvWrites", "bytesId": "gh_bytesId", "keyOf": "gh_keyOf", "sameRef": "gh_sameRef", "arrOf": "gh_arrOf", "anyOf": "gh_anyOf", "unavail": "gh_unavail", "errIs": "gh_errIs", "mapEq": "gh_mapEq", "emptyMap": "gh_emptyMap",
+	"count": "gh_count", "sum": "gh_sum", "upd": "gh_upd", "hdr": "gh_hdr", "kvDomain": "gh_kvDomain", "kvState": "gh_kvState", "kvHas": "gh_kvHas", "kvVal": "gh_kvVal", "kvWrites": "gh_kvWrites", "bytesId": "gh_bytesId", "keyOf": "gh_keyOf", "sameRef": "gh_sameRef", "arrOf": "gh_arrOf", "anyOf": "gh_anyOf", "unavail": "gh_unavail", "errIs": "gh_errIs", "mapEq": "gh_mapEq", "emptyMap": "gh_emptyMap",
 }
 
 var identCallRe = regexp.MustCompile(`\b([A-Za-z_]\w*)\s*\(`)
@@ -537,6 +542,7 @@ func gh_abs(a int) int                    { if a < 0 { return -a }; return a }
 func gh_min(a, b int) int                 { if a < b { return a }; return b }
 func gh_max(a, b int) int                 { if a < b { return b }; return a }
 func gh_wrote() int                       { return 0 }
+func gh_hdr[T any](x T) T                { return x }
 func gh_kvDomain() int                    { return 0 }
 func gh_kvState() int                     { return 0 }
 func gh_kvHas(k int) bool                 { return false }
